@@ -193,25 +193,27 @@ def pumpWriter (s : St) (cid : Nat) : St :=
       let s := s.modConn cid fun c => { c with wbuf := c.wbuf ++ [m], outQ := c.outQ.drop 1 }
       demandAttention s cid) s
 
-/-- `route_answer`. -/
+/-- `route_answer`: the connection that has an unanswered request with the
+    answer's hop-by-hop id (the first such connection in registration order),
+    if it is still registered and in a ready state. -/
 def routeAnswer (s : St) (m : AMsg) : Except Exn (St × Nat) :=
-  match s.peerWaiting.find? (fun (p : String × List Nat) => p.2.contains m.hbh) with
+  match s.peerWaiting.find? (fun (p : Nat × List Nat) => p.2.contains m.hbh) with
   | none => .error .notRoutable
-  | some (host, _) =>
-    let s : St := { s with peerWaiting := s.peerWaiting.map fun (p : String × List Nat) =>
-      if p.1 == host then (p.1, p.2.filter (· != m.hbh)) else p }
-    let live : List Conn := s.connections.filterMap s.conn?
-    match live.find? (fun (c : Conn) => c.hostIdentity == host) with
-    | none => .error .notRoutable      -- (state change above is kept by the caller)
-    | some c => if c.state.isReady then .ok (s, c.id) else .error .notRoutable
+  | some (wc, _) =>
+    let s : St := { s with peerWaiting := s.peerWaiting.map fun (p : Nat × List Nat) =>
+      if p.1 == wc then (p.1, p.2.filter (· != m.hbh)) else p }
+    if !s.connections.contains wc then .error .notRoutable      -- (state change above is kept by the caller)
+    else match s.conn? wc with
+      | none => .error .notRoutable
+      | some c => if c.state.isReady then .ok (s, c.id) else .error .notRoutable
 
 /-- the `peerWaiting` deletion `route_answer` performs before it may raise -/
 def routeAnswerSideEffect (s : St) (m : AMsg) : St :=
-  match s.peerWaiting.find? (fun (p : String × List Nat) => p.2.contains m.hbh) with
+  match s.peerWaiting.find? (fun (p : Nat × List Nat) => p.2.contains m.hbh) with
   | none => s
-  | some (host, _) =>
-    { s with peerWaiting := s.peerWaiting.map fun (p : String × List Nat) =>
-      if p.1 == host then (p.1, p.2.filter (· != m.hbh)) else p }
+  | some (wc, _) =>
+    { s with peerWaiting := s.peerWaiting.map fun (p : Nat × List Nat) =>
+      if p.1 == wc then (p.1, p.2.filter (· != m.hbh)) else p }
 
 /-- `Application.send_answer` of an already built answer: `(state, routed?)`. -/
 def sendBuiltAnswer (s : St) (ans : AMsg) (typed : Bool) : St × Bool :=
